@@ -750,7 +750,7 @@ pub mod fasta {
                 && r.cursor() == self.cursor() && r.f() == self.f(),
 //@end
 
-//@fn fasta::Reader::next ret=r tags=C01,C03,C05,C06,C14,C17
+//@fn fasta::Reader::next ret=r tags=C01,C03,C05,C06,C09,C14,C17
 //@spec
         requires
             old(self).wf(),
@@ -761,6 +761,9 @@ pub mod fasta {
                 && (old(self).state == State::Finished || (old(self).state == State::New
                     && (old(self).fresh() ==> first_nonblank(old(self).f(), 0) == old(self).f().len()))),
             [C01,C04,C20|fasta.next.end_is_sticky] old(self).state == State::Finished ==> r is None,
+            [C09|fasta.next.capacity_monotone] final(self).buf_reader.cap() >= old(self).buf_reader.cap(),
+            [C09|fasta.next.growth_only_when_record_does_not_fit] old(self).clean() && final(self).buf_reader.cap() > old(self).buf_reader.cap() ==>
+                fa_nofit(old(self).f(), old(self).cursor(), old(self).buf_reader.cap() as int),
             [C14|fasta.next.source_errors_are_not_swallowed] (r is None || r matches Some(Ok(_))) ==> final(self).buf_reader.errs() == old(self).buf_reader.errs(),
             [C01,C03,C04,C06,C12|fasta.next.record] r matches Some(Ok(rec)) ==> final(self).buf_reader.errs() == old(self).buf_reader.errs()
                 && old(self).state != State::Finished
